@@ -41,7 +41,9 @@
      "StatsIgnoreNaN"         legacy float statistics leave NaN out of min/max
      "NgramNoTrigramIsEmpty"  a query of >= 3 bytes without any indexable trigram
                               answers AtMost({}) instead of "know nothing"
-     "AtLeastReadsOnlyGuaranteed"  the reader treats AtLeast(S) as "read only S"      *)
+     "AtLeastReadsOnlyGuaranteed"  the reader treats AtLeast(S) as "read only S"
+     "ConstantPageIgnoresNulls"    a page with nulls whose other values are all equal is
+                              simplified as if it had no nulls                            *)
 EXTENDS Sql3VL, TLC, Json, SequencesExt
 
 CONSTANTS Kind,        \* "int" | "str" | "float"
@@ -171,7 +173,10 @@ PageStatsAsBuilt(z) ==
 \* statistics may be widened (truncated string bounds): any wider interval is acceptable
 Widenings(st) == {[st EXCEPT !.min = lo, !.max = hi] : lo \in {BOT} \cup {v \in Vals : v <= st.min}, hi \in {TOP} \cup {v \in Vals : v >= st.max}}
 
-IvKind(st) == IF st.nulls = 0 THEN "notnull" ELSE IF st.nulls = st.len THEN "null" ELSE "maybenull"
+\* as built (ConstantPageIgnoresNulls): a page with nulls whose non-null values are all equal has its column
+\* replaced by that value (NullableInterval::single_value answers for MaybeNull as for NotNull)
+IvKind(st) == IF st.nulls = 0 THEN "notnull" ELSE IF st.nulls = st.len THEN "null"
+              ELSE IF "ConstantPageIgnoresNulls" \in Deviations /\ st.min = st.max THEN "notnull" ELSE "maybenull"
 \* abstract value of a predicate on a page: "T" / "F" / "N" = every row evaluates to that; "?" = not decided
 AbsCmp(st, op, l) ==
   IF l = NULL THEN "N"
@@ -307,7 +312,7 @@ Entries(s, fp) ==   \* the index entries for a training stream
 
 FragIds == {frags[i].id : i \in DOMAIN frags}
 NextId == nid
-MCells == (0..(IF K > 1 THEN 1 ELSE K)) \cup {NULL}     \* the machine uses a small cell alphabet
+MCells == Cells
 TotalRows == LET RECURSIVE S(_)
                  S(i) == IF i = 0 THEN 0 ELSE Len(frags[i].cells) + S(i - 1) IN S(Len(frags))
 
@@ -342,14 +347,15 @@ EntryMay(e, q) == IF IType = "zonemap" THEN ZMEval(e.st, q) ELSE BloomEval(e.f, 
 ToQ(p) == IF IType = "zonemap" THEN ToZM(p) ELSE ToBloom(p)
 \* addresses the scan reads for predicate p: claimed ranges of the zones that may match,
 \* plus every fragment the index does not cover; everything read is rechecked with p
-Candidates(p) ==
+\* (lr: the live rows, passed in so that they are computed once per state)
+Candidates(lr, p) ==
   LET q == ToQ(p) IN
-  IF ~hasIdx \/ q[1] = "none" THEN {<<r.fid, r.off>> : r \in LiveRows}
-  ELSE {<<r.fid, r.off>> : r \in {x \in LiveRows : x.fid \notin cov}}
-       \cup {<<r.fid, r.off>> : r \in {x \in LiveRows : \E e \in idx : e.fid = x.fid /\ e.lo <= x.off /\ x.off < e.hi /\ EntryMay(e, q)}}
-Matches(p) == {<<r.fid, r.off>> : r \in {x \in LiveRows : Holds(p, Row(x.v))}}
-Result(p) == Candidates(p) \cap Matches(p)
-MLits == 0..(IF K > 1 THEN 1 ELSE K)
+  IF ~hasIdx \/ q[1] = "none" THEN {<<r.fid, r.off>> : r \in lr}
+  ELSE LET may == {e \in idx : EntryMay(e, q)} IN
+       {<<r.fid, r.off>> : r \in {x \in lr : x.fid \notin cov \/ \E e \in may : e.fid = x.fid /\ e.lo <= x.off /\ x.off < e.hi}}
+Matches(lr, p) == {<<r.fid, r.off>> : r \in {x \in lr : Holds(p, Row(x.v))}}
+Result(lr, p) == Candidates(lr, p) \cap Matches(lr, p)
+MLits == Vals
 MPreds == Atoms({"val"}, MLits)
 Query(p) ==
   /\ frags # <<>>
@@ -370,7 +376,7 @@ NgQuery(q) ==
   /\ last' = [op |-> "query", pred |-> q]
   /\ UNCHANGED <<frags, del, idx, cov, hasIdx, strs, nid>>
 
-FpChoices == {{}, Vals}
+FpChoices == IF IType = "bloom" THEN {{}, Vals} ELSE {{}}
 Init == /\ frags = <<>> /\ del = {} /\ idx = {} /\ cov = {} /\ hasIdx = FALSE /\ steps = 0
         /\ last = [op |-> "init"] /\ strs = <<>> /\ nid = 0
 Tick(m) == Mode = m /\ steps < MaxSteps /\ steps' = steps + 1
@@ -385,11 +391,11 @@ N_NgQuery == Tick("ngram") /\ \E q \in Strs(MaxStr) : NgQuery(q)
 Next == N_Append \/ N_Delete \/ N_Build \/ N_Optimize \/ N_Query \/ N_NgAdd \/ N_NgBuild \/ N_NgQuery
 Spec == Init /\ [][Next]_vars
 \* the step counter and the last query are not part of the table state
-view == <<frags, del, idx, cov, hasIdx, strs, nid, last.op>>
+view == <<frags, del, idx, cov, hasIdx, strs, nid>>
 
 \* every query the machine could run now returns what the full scan returns
 IndexedScanEqualsFullScan ==
-  /\ (Mode = "zone" /\ frags # <<>>) => \A p \in MPreds : Result(p) = Matches(p)
+  /\ (Mode = "zone" /\ frags # <<>>) => LET lr == LiveRows IN \A p \in MPreds : Result(lr, p) = Matches(lr, p)
   /\ (Mode = "ngram" /\ strs # <<>>) => \A q \in Strs(MaxStr) : NgScan(q) = NgMatches(strs, q)
 \* (the laws take a parameter and Laws mentions a variable so that TLC does not evaluate them eagerly as constants)
 Laws == (Mode = "laws" /\ steps = 0) =>
